@@ -362,13 +362,22 @@ Definition ids (fi : list entry) : list nat := map (fun e => f_id (e_file e)) fi
 (** number of 3-D volumes as the code recomputes it from a shape tuple *)
 Definition nvols_of_shape (sh : list nat) : nat := nth 3 sh 1 * nth 4 sh 1.
 
-(** lines 755-761: the array takes the dtype of the FIRST file of the sorted list; unsigned short with fewer
-    than 16 bits stored becomes signed short *)
-Definition stack_dtype (f : file) : nat :=
-  if Nat.eqb (f_dtype f) 1 && (f_bits f <? 16) then 0 else f_dtype f.
+(** get_data, fix 63f686b: the array takes [np.result_type] of the dtypes of ALL files and the largest
+    BitsStored; unsigned short with fewer than 16 bits stored becomes signed short.  The promotion is
+    modelled on the codes 0 (int16), 1 (uint16), 4 (int32): equal dtypes stay, different ones give int32. *)
+Definition join_dtypes (ds : list nat) : nat :=
+  match ds with
+  | [] => 0
+  | d :: r => if forallb (Nat.eqb d) r then d else 4
+  end.
+Definition stack_dtype (fs : list file) : nat :=
+  let d := join_dtypes (map f_dtype fs) in
+  if Nat.eqb d 1 && (list_max (map f_bits fs) <? 16) then 0 else d.
+Definition data_dtype (st : state) : nat := stack_dtype (map e_file (files_info st)).
+(** the per-file shape is still read from the first file of the sorted list *)
 Definition data_ref (st : state) : file := e_file (nth 0 (files_info st) dflt_entry).
 
-(** the array is determined by the order of the files, the shape, and the dtype of [data_ref] *)
+(** the array is determined by the order of the files, the shape, and [data_dtype] *)
 Definition get_data (st : state) : state * res (list nat * list nat) :=
   let '(st1, r) := get_shape st in
   match r with
@@ -417,8 +426,8 @@ Record nifti_out := mknifti {
   o_embed : bool;
   o_tr : option Qc;                   (* pixdim[4] when exactly one, non-None RepetitionTime *)
   o_phase : option bool;              (* Some true: phase = 'ROW' *)
-  o_data_ref : nat;                   (* id of the file whose dtype / BitsStored / shape get_data used *)
-  o_dtype : nat;                      (* the array's dtype code, see [stack_dtype] *)
+  o_data_ref : nat;                   (* id of the file whose per-file shape get_data used (first of the sorted list) *)
+  o_dtype : nat;                      (* the array's dtype code, a function of ALL files, see [stack_dtype] *)
   o_has_acq : bool                    (* every file has an AcquisitionTime (fix 75eb235): slice timing is attempted *)
 }.
 
@@ -439,6 +448,7 @@ Definition to_nifti (st : state) (vo : vorder) (embed : bool) : state * res nift
   | Err e => (st1, Err e)
   | Ok (_, sh) =>
       let dref := data_ref st1 in
+      let dt := data_dtype st1 in
       let '(st2, ra) := get_affine st1 in
       match ra with
       | Err e => (st2, Err e)
@@ -456,7 +466,7 @@ Definition to_nifti (st : state) (vo : vorder) (embed : bool) : state * res nift
           (st3, Ok (mknifti (ids (files_info st3)) sh flip i0 col vo embed
                             (single_some (rep_times st3))
                             (option_map (fun p => str_eqb p row_str) (single_some (pe_dirs st3)))
-                            (f_id dref) (stack_dtype dref)
+                            (f_id dref) dt
                             (forallb (fun e => f_has_acq (e_file e)) (files_info st3))))
       end
   end.
@@ -483,7 +493,7 @@ Definition step (st : state) (o : op) : state * res outcome :=
   match o with
   | OAdd f => match add_dcm st f with Ok st' => (st', Ok OutAdded) | Err e => (st, Err e) end
   | OGetShape => let '(s, r) := get_shape st in (s, rmap OutShape r)
-  | OGetData => let '(s, r) := get_data st in (s, rmap (fun x => OutData (fst x) (snd x) (stack_dtype (data_ref s))) r)
+  | OGetData => let '(s, r) := get_data st in (s, rmap (fun x => OutData (fst x) (snd x) (data_dtype s)) r)
   | OGetAffine => let '(s, r) := get_affine st in (s, rmap (fun x => OutAffine (fst x) (snd x)) r)
   | OToNifti vo e => let '(s, r) := to_nifti st vo e in (s, rmap OutNifti r)
   | OToNiftiWrapper vo => let '(s, r) := to_nifti_wrapper st vo in (s, rmap OutNifti r)
